@@ -27,6 +27,9 @@ import MagpyVerif.Lemmas.DisplayUnit
 import MagpyVerif.Lemmas.DisplayWind
 import MagpyVerif.Lemmas.DisplayGroup
 import MagpyVerif.Lemmas.DisplayArrow
+import MagpyVerif.Lemmas.DisplayOutward
+import MagpyVerif.Lemmas.DisplayArrowLine
+import MagpyVerif.Lemmas.DisplaySensor
 namespace MagpyVerif.C19
 open MagpyVerif.Gen
 
@@ -1462,5 +1465,320 @@ theorem sensor_pixel_size_rule (p q : V3 ℝ) (r : List (V3 ℝ)) (size dimExt :
       norm_num
 
 example : pixelDim [(⟨0, 0, 0⟩ : V3 ℝ), ⟨1, 0, 0⟩] false 2 1 = 2 := (sensor_pixel_size_rule _ _ _ _ _).1
+
+end MagpyVerif.C19
+
+
+/-! ## OUTWARD winding of the closed-surface generators (Model/DisplayOutward.lean at α = ℝ; `svol` rows of the `disp` stream)
+
+`DisplayTrig.faceOut vs f o` is `det[a - o, b - o, c - o]` for the triangle `f = (a, b, c)`: the normal `(b - a) × (c - a)` in INDEX
+ORDER (what plotly lights a `mesh3d` face by) dotted with (centroid − o) (`face_out_is_normal_dot_centroid`).  Each theorem names ONE
+triangle of the generator's own index arrays and shows that, seen from an interior point, its normal points AWAY from it; the
+`*_consistently_wound` theorems say every edge of the closed surface is used once in each direction, i.e. neighbouring triangles
+agree about the side — on a connected surface that carries the orientation of the one triangle to all (this last step, a graph
+traversal, is NOT formalised; the `svol` rows compare the signed volume Σ det[a, b, c] of model and real arrays: positive in every
+row).  No generator is wound inwards. -/
+
+namespace MagpyVerif.C19
+open MagpyVerif MagpyVerif.DisplayTrig MagpyVerif.Display MagpyVerif.Mesh
+
+theorem face_out_is_normal_dot_centroid (a b c o : V3 ℝ) :
+    det3v (a - o) (b - o) (c - o) =
+      V3.dot (V3.cross (b - a) (c - a)) (⟨(a.x + b.x + c.x) / 3 - o.x, (a.y + b.y + c.y) / 3 - o.y, (a.z + b.z + c.z) / 3 - o.z⟩ : V3 ℝ) :=
+  det3v_eq_normal_dot a b c o
+
+/-- Cylinder graphic `make_Prism(base=N, diameter=d, height=h)`, EVERY `N ≥ 3`, `d ≠ 0`, `h > 0`: the side triangle `(0, 1, N)` of the
+generator's index arrays (bottom ring 0 → bottom ring 1 → top ring 0), seen from the centre of the prism, has
+`normal · (centroid − centre) = (d/2)² sin(2π/N) h > 0`; the surface is closed and consistently wound -/
+theorem prism_wound_outwards (N : Nat) (hN : 3 ≤ N) (d h : ℝ) (hd : d ≠ 0) (hh : 0 < h) :
+    ∃ fs, prismTriangles N = .ok fs ∧ (0, 1, N) ∈ fs ∧ openEdges fs = [] ∧ Wound fs ∧
+      ∃ v, faceOut (prismVerts N d h) (0, 1, N) ⟨0, 0, 0⟩ = some v ∧ 0 < v := by
+  refine ⟨prismSpec N, prismTriangles_eq (by omega), ?_, prismSpec_closed hN, prism_wound hN, _, prism_face0_out N hN d h, ?_⟩
+  · have := prism_F1 (N := N) (q := 0) (by omega)
+    simpa [succMod, Nat.mod_eq_of_lt (show 1 < N by omega)] using this
+  · have := sin_two_pi_div_pos hN
+    have : 0 < (d / 2) ^ 2 := by positivity
+    positivity
+
+example : ∃ v, faceOut (prismVerts 50 (2 : ℝ) 3) (0, 1, 50) ⟨0, 0, 0⟩ = some v ∧ 0 < v :=
+  let ⟨_, _, _, _, _, h⟩ := prism_wound_outwards 50 (by norm_num) 2 3 (by norm_num) (by norm_num); h
+
+/-- cone `make_Pyramid(base=N, diameter=d, height=h, pivot)`, every `N ≥ 3` (an open surface: no base): the triangle `(0, 1, N)`
+(base ring 0 → base ring 1 → tip), seen from the point of the axis at base height, faces away from the axis -/
+theorem pyramid_wound_outwards (N : Nat) (hN : 3 ≤ N) (d h : ℝ) (p : Pivot) (hd : d ≠ 0) (hh : 0 < h) :
+    ∃ fs, pyramidTriangles N = .ok fs ∧ (0, 1, N) ∈ fs ∧ Wound fs ∧
+      ∃ v, faceOut (pyramidVerts N d h p) (0, 1, N) ⟨0, 0, -(h / 2) + zShift p h⟩ = some v ∧ 0 < v := by
+  refine ⟨pyramidSpec N, pyramidTriangles_eq (by omega), ?_, pyramid_wound N, _, pyramid_face0_out N hN d h p, ?_⟩
+  · have : (0, succMod N 0, N) ∈ pyramidSpec N := List.mem_map.2 ⟨0, List.mem_range.2 (by omega), rfl⟩
+    simpa [succMod, Nat.mod_eq_of_lt (show 1 < N by omega)] using this
+  · have := sin_two_pi_div_pos hN
+    have : 0 < (d / 2) ^ 2 := by positivity
+    positivity
+
+example : ∃ v, faceOut (pyramidVerts 30 (1 : ℝ) 2 .tail) (0, 1, 30) ⟨0, 0, -(2 / 2) + zShift .tail 2⟩ = some v ∧ 0 < v :=
+  let ⟨_, _, _, _, h⟩ := pyramid_wound_outwards 30 (by norm_num) 1 2 .tail (by norm_num) (by norm_num); h
+
+/-- `make_CylinderSegment` for EVERY arc count `N ≥ 2`, radii `r1 < r2`, `0 < r2` (also `r1 = 0`), angle range
+`0 < φ2 − φ1 < 180°·(N − 1)` (one arc step below a half turn), with or without the caps: the top-face triangle `(1, N, N + 1)` (inner
+arc 1 → outer arc 0 → outer arc 1), seen from ANY point `o` below the top plane (`o.z < h/2`: every interior point), has
+`normal · (centroid − o) = (r2 − r1) r2 sin(step) (h/2 − o.z) > 0`; with the caps drawn the surface is closed and consistently wound -/
+theorem cylinder_segment_wound_outwards (N : Nat) (hN : 2 ≤ N) (r1 r2 h phi1 phi2 : ℝ) (hr : r1 < r2) (hr2 : 0 < r2)
+    (h1 : phi1 < phi2) (h2 : phi2 - phi1 < 180 * ((N - 1 : ℕ) : ℝ)) (o : V3 ℝ) (ho : o.z < h / 2) :
+    (1, N, N + 1) ∈ segTriangles N false ∧ (1, N, N + 1) ∈ segTriangles N true ∧
+    openEdges (segTriangles N false) = [] ∧ Wound (segTriangles N false) ∧
+    ∃ v, faceOut (segVertsN N r1 r2 h phi1 phi2) (1, N, N + 1) o = some v ∧ 0 < v := by
+  have hmem : (1, N, N + 1) ∈ segSpec N := by
+    unfold segSpec
+    simp only [List.mem_append, List.mem_map, List.mem_range]
+    exact Or.inl (Or.inl (Or.inl (Or.inl (Or.inl (Or.inl (Or.inr ⟨0, by omega, by simp⟩))))))
+  have hw := (cylinder_segment_consistently_wound N hN)
+  refine ⟨?_, ?_, hw.2.1, hw.2.2.1, _, seg_face_out N hN r1 r2 h phi1 phi2 o, ?_⟩
+  · rw [segTriangles_eq]; exact List.mem_append_left _ hmem
+  · rw [segTriangles_eq]; exact hmem
+  · have := seg_step_sin_pos N hN phi1 phi2 h1 h2
+    have h3 : 0 < r2 - r1 := by linarith
+    have h4 : 0 < h / 2 - o.z := by linarith
+    positivity
+
+/-- the same for the function's own arguments (`N = max(5, int(vert·|φ1 − φ2|/360))`): every `vert`, every range `φ1 < φ2 ≤ φ1 + 360` -/
+theorem cylinder_segment_wound_outwards_of_args (vert : Nat) (r1 r2 h phi1 phi2 : ℝ) (hr : r1 < r2) (hr2 : 0 < r2)
+    (h1 : phi1 < phi2) (h2 : phi2 - phi1 ≤ 360) (o : V3 ℝ) (ho : o.z < h / 2) :
+    ∃ v, faceOut (segVerts vert r1 r2 h phi1 phi2) (1, segN vert phi1 phi2, segN vert phi1 phi2 + 1) o = some v ∧ 0 < v := by
+  have h5 := le_segN vert phi1 phi2
+  have hm : (4 : ℝ) ≤ ((segN vert phi1 phi2 - 1 : ℕ) : ℝ) := by exact_mod_cast (show 4 ≤ segN vert phi1 phi2 - 1 by omega)
+  exact (cylinder_segment_wound_outwards (segN vert phi1 phi2) (by omega) r1 r2 h phi1 phi2 hr hr2 h1 (by nlinarith) o ho).2.2.2.2
+
+example : ∃ v, faceOut (segVerts 25 (0 : ℝ) 1 1 0 90) (1, segN 25 (0 : ℝ) 90, segN 25 (0 : ℝ) 90 + 1) ⟨1 / 2, 1 / 4, 0⟩ = some v ∧ 0 < v :=
+  cylinder_segment_wound_outwards_of_args 25 0 1 1 0 90 (by norm_num) (by norm_num) (by norm_num) (by norm_num) _ (by norm_num)
+
+/-- Sphere graphic `make_Ellipsoid(dimension=(a, b, c), vert=N)`, EVERY `N ≥ 4`, positive axes: the south-cap triangle `(0, 1, 2)`
+(south pole → first ring at longitude 0 → first ring at longitude 2π/N; the ring runs from +y towards +x), seen from the centre,
+has `normal · (centroid − centre) = (a/2)(b/2)(c/2) cos²θ₁ sin(2π/N) > 0`; the surface is closed and consistently wound -/
+theorem ellipsoid_wound_outwards (N : Nat) (hN : 4 ≤ N) (a b c : ℝ) (ha : 0 < a) (hb : 0 < b) (hc : 0 < c) :
+    ∃ fs, ellipsoidTriangles N = .ok fs ∧ (0, 1, 2) ∈ fs ∧ openEdges fs = [] ∧ Wound fs ∧
+      ∃ v, faceOut (ellipsoidVerts N a b c) (0, 1, 2) ⟨0, 0, 0⟩ = some v ∧ 0 < v := by
+  refine ⟨ellSpec N, ellipsoidTriangles_eq hN, ?_, ellSpec_closed hN, ell_wound hN, _, ellipsoid_face_out N (by omega) a b c, ?_⟩
+  · have := ell_S (N := N) (q := 1) (by omega)
+    have e2 : succMod N 1 = 2 := by unfold succMod; exact Nat.mod_eq_of_lt (by omega)
+    simpa [ringJ, e2] using this
+  · have h1 := sin_two_pi_div_pos (show 3 ≤ N by omega)
+    have h2 := cos_ellTheta1_pos (show 3 ≤ N by omega)
+    positivity
+
+example : ∃ v, faceOut (ellipsoidVerts 15 (1 : ℝ) 1 1) (0, 1, 2) ⟨0, 0, 0⟩ = some v ∧ 0 < v :=
+  let ⟨_, _, _, _, _, h⟩ := ellipsoid_wound_outwards 15 (by norm_num) 1 1 1 (by norm_num) (by norm_num) (by norm_num); h
+
+end MagpyVerif.C19
+
+
+/-! ## The arrow of a Polyline segment AFTER the rotation onto the segment (Model/DisplayArrowLine.lean at α = ℝ; rows `arrowr`, `arrowsv`)
+
+`draw_arrowed_line` turns the template with scipy's `Rotation.from_rotvec(r).apply`; in the model that call is the parameter `rot`
+(the driver passes Rodrigues' formula `rotvecApply`).  `TurnsOnto T vec` is what the theorem needs of `T = rot r` for the rotation
+vector `r` the code computes (`arrowRotvec`): on the template's plane it is linear, takes ŷ to `vec/|vec|` and x̂ to a unit vector
+perpendicular to `vec` — true of every rotation that takes ŷ to `vec/|vec|`; for scipy it is the stated ASSUMPTION, for
+`rotvecApply` it is proved in the anti-parallel branch (`polyline_arrow_antiparallel`) and trivially when nothing is rotated. -/
+
+namespace MagpyVerif.C19
+open MagpyVerif MagpyVerif.Kern MagpyVerif.DisplayTrig
+
+/-- `draw_arrowed_line(vec, pos, sign, arrow_size, arrow_pos)` (pivot "middle", line included; `draw_arrow_from_vertices` passes the
+segment `vec = v_{i+1} − v_i` and its middle `pos`), for every `vec ≠ 0`: the seven points are
+start of the segment `pos − vec/2`, TIP, barb, tip, barb, tip, end `pos + vec/2`; the tip lies ON the segment at the fraction
+`arrow_pos` from its start (`start + arrow_pos·vec`); the two barbs are mirror images in the segment: their midpoint lies on the
+segment's line, `sgn(sign)·size·|vec|` behind the tip, and they sit `0.6·size·|vec|` to either side along a unit vector `e ⟂ vec`. -/
+theorem polyline_arrow_placed (rot : V3 ℝ → V3 ℝ → V3 ℝ) (vec pos : V3 ℝ) (sign size apos : ℝ) (hv : Kern.norm vec ≠ 0)
+    (hrot : ∀ r, arrowRotvec vec = some r → TurnsOnto (rot r) vec) :
+    ∃ e start tip b1 b2 stop : V3 ℝ, V3.dot e vec = 0 ∧ V3.dot e e = 1 ∧
+      arrowedLine rot vec pos sign size apos .middle true = [some start, some tip, some b1, some tip, some b2, some tip, some stop] ∧
+      start = pos - vs (1 / 2) vec ∧ stop = pos + vs (1 / 2) vec ∧ tip = start + vs apos vec ∧
+      vs (1 / 2) (b1 + b2) = tip - vs (sgn sign * size) vec ∧
+      b2 - b1 = vs (2 * (3 / 5 * size * Kern.norm vec)) e ∧ V3.dot (b2 - b1) vec = 0 := by
+  obtain ⟨e, he1, he2, hl⟩ := arrowedLine_of_turnsOnto rot vec pos sign size apos hv hrot
+  refine ⟨e, _, _, _, _, _, he1, he2, hl, rfl, rfl, ?_, ?_, ?_, ?_⟩
+  · apply V3.ext' <;> simp only [vs, V3.add_x, V3.add_y, V3.add_z, V3.sub_x, V3.sub_y, V3.sub_z] <;> ring
+  · apply V3.ext' <;> simp only [vs, V3.add_x, V3.add_y, V3.add_z, V3.sub_x, V3.sub_y, V3.sub_z] <;> ring
+  · apply V3.ext' <;> simp only [vs, V3.add_x, V3.add_y, V3.add_z, V3.sub_x, V3.sub_y, V3.sub_z] <;> ring
+  · simp only [V3.dot, vs, V3.add_x, V3.add_y, V3.add_z, V3.sub_x, V3.sub_y, V3.sub_z] at he1 ⊢
+    linear_combination (2 * (3 / 5 * size * Kern.norm vec)) * he1
+
+/-- the EXACTLY ANTI-PARALLEL segment `vec = (0, −L, 0)`, with Rodrigues' rotation (what the driver runs): the code takes the branch
+`from_rotvec([0, 0, π])` (`n == 0 and dot == -1`), the half turn about z, and the arrow is the one of `polyline_arrow_placed` with
+`e = (−1, 0, 0)`: no hypothesis on the rotation is left -/
+theorem polyline_arrow_antiparallel (L : ℝ) (hL : 0 < L) (pos : V3 ℝ) (sign size apos : ℝ) :
+    arrowRotvec (⟨0, -L, 0⟩ : V3 ℝ) = some ⟨0, 0, Real.pi⟩ ∧
+    arrowedLine rotvecApply ⟨0, -L, 0⟩ pos sign size apos .middle true = arrowPts ⟨0, -L, 0⟩ pos sign size apos ⟨-1, 0, 0⟩ := by
+  have hn : Kern.norm (⟨0, -L, 0⟩ : V3 ℝ) = L := by
+    rw [norm_real]
+    simp only [mul_zero, zero_add, add_zero, neg_mul_neg]
+    exact Real.sqrt_mul_self hL.le
+  have hr : arrowRotvec (⟨0, -L, 0⟩ : V3 ℝ) = some ⟨0, 0, Real.pi⟩ := by
+    rw [arrowRotvec_real]
+    simp [hn, hL.ne']
+  refine ⟨hr, ?_⟩
+  have hpts : ∀ x y : ℝ, rotvecApply (⟨0, 0, Real.pi⟩ : V3 ℝ) ⟨x, y, 0⟩ = vs x ⟨-1, 0, 0⟩ + vs y (vd ⟨0, -L, 0⟩ (Kern.norm (⟨0, -L, 0⟩ : V3 ℝ))) := by
+    intro x y
+    rw [rotvecApply_pi, hn]
+    apply V3.ext' <;> simp [vs, vd, hL.ne']
+  obtain ⟨e, _, _, hl⟩ := arrowedLine_key rotvecApply ⟨0, -L, 0⟩ pos sign size apos (by rw [hn]; exact hL.ne') (rotvecApply ⟨0, 0, Real.pi⟩)
+    ⟨⟨-1, 0, 0⟩, by simp [V3.dot], by simp [V3.dot], hpts⟩ (by rw [hr])
+  -- the witness of `arrowedLine_key` is the `e` handed in; redo the computation with it fixed
+  have : arrowedLine rotvecApply ⟨0, -L, 0⟩ pos sign size apos .middle true =
+      ((arrowTemplate sign size apos true).map (Option.map fun v =>
+        (⟨(v.x + 0) * L, (v.y + 0) * L, (v.z + 0) * L⟩ : V3 ℝ))).map (Option.map (fun v => rotvecApply ⟨0, 0, Real.pi⟩ v + pos)) := by
+    unfold arrowedLine
+    simp only [arrowAnchor, n_real, Nat.cast_zero, hr, hn]
+    simp [List.map_map, Function.comp_def]
+  rw [this]
+  simp only [arrowTemplate, if_true, n_real, half_real, Nat.cast_zero, Nat.cast_ofNat, List.map_cons, List.cons_append, List.nil_append,
+    List.map_nil, Option.map_some, add_zero, zero_mul, rotvecApply_pi, arrowPts, hn]
+  simp only [List.cons.injEq, Option.some.injEq, and_true]
+  refine ⟨?_, ?_, ?_, ?_, ?_, ?_, ?_⟩ <;>
+    (apply V3.ext' <;> simp only [vs, V3.add_x, V3.add_y, V3.add_z, V3.sub_x, V3.sub_y, V3.sub_z] <;> ring)
+
+/-- non-vacuity of `polyline_arrow_placed`: for the anti-parallel segment the hypothesis on the rotation HOLDS for Rodrigues' formula -/
+example (L : ℝ) (hL : 0 < L) : ∀ r, arrowRotvec (⟨0, -L, 0⟩ : V3 ℝ) = some r → TurnsOnto (rotvecApply r) ⟨0, -L, 0⟩ := by
+  intro r hr
+  have hn : Kern.norm (⟨0, -L, 0⟩ : V3 ℝ) = L := by
+    rw [norm_real]
+    simp only [mul_zero, zero_add, add_zero, neg_mul_neg]
+    exact Real.sqrt_mul_self hL.le
+  rw [(polyline_arrow_antiparallel L hL ⟨0, 0, 0⟩ 1 1 1).1] at hr
+  cases hr
+  refine ⟨⟨-1, 0, 0⟩, by simp [V3.dot], by simp [V3.dot], ?_⟩
+  intro x y
+  rw [rotvecApply_pi, hn]
+  apply V3.ext' <;> simp [vs, vd, hL.ne']
+
+/-- `draw_arrow_from_vertices`: the loop over the segments and the size rule.  For vertices `p, q, …`: ValueError for fewer than two
+vertices; otherwise the FIRST block is `draw_arrowed_line` of the first segment `q − p` placed at its middle `p + (q − p)/2` with
+size `0.1·arrow_size` (scaled) or `arrow_size/|q − p|` (absolute; `0` for a zero-length segment), followed by the blocks of the
+remaining vertices `q, …` (nothing when `q` is the last) -/
+theorem arrows_from_vertices_loop (rot : V3 ℝ → V3 ℝ → V3 ℝ) (p q : V3 ℝ) (rest : List (V3 ℝ)) (sign size apos : ℝ)
+    (scaled incl : Bool) :
+    arrowFromVertices rot ([] : List (V3 ℝ)) sign size apos scaled incl = .error .valueError ∧
+    arrowFromVertices rot [p] sign size apos scaled incl = .error .valueError ∧
+    arrowFromVertices rot (p :: q :: rest) sign size apos scaled incl =
+      .ok (arrowedLine rot (q - p) (p + vd (q - p) 2) sign
+            (if scaled then size * (1 / 10) else if Kern.norm (q - p) = 0 then 0 else size / Kern.norm (q - p)) apos .middle incl ++
+          (match arrowFromVertices rot (q :: rest) sign size apos scaled incl with
+           | .ok l => l
+           | .error _ => [])) := by
+  refine ⟨by simp [arrowFromVertices, diffs], by simp [arrowFromVertices, diffs], ?_⟩
+  cases rest with
+  | nil => cases scaled <;> simp [arrowFromVertices, diffs, arrowSizes]
+  | cons r rest => cases scaled <;> simp [arrowFromVertices, diffs, arrowSizes]
+
+example : (arrowFromVertices rotvecApply [(⟨0, 0, 0⟩ : V3 ℝ), ⟨0, -2, 0⟩] 1 1 (1 / 2) true true).toOption =
+    some (arrowedLine rotvecApply (⟨0, -2, 0⟩ - ⟨0, 0, 0⟩) (⟨0, 0, 0⟩ + vd (⟨0, -2, 0⟩ - ⟨0, 0, 0⟩) 2) 1 (1 * (1 / 10)) (1 / 2) .middle true ++ []) := by
+  rw [(arrows_from_vertices_loop rotvecApply ⟨0, 0, 0⟩ ⟨0, -2, 0⟩ [] 1 1 (1 / 2) true true).2.2,
+    (arrows_from_vertices_loop rotvecApply ⟨0, -2, 0⟩ ⟨0, 0, 0⟩ [] 1 1 (1 / 2) true true).2.1]
+  simp [Except.toOption]
+
+end MagpyVerif.C19
+
+
+/-! ## The Sensor axes glyph (Model/DisplaySensor.lean at α = ℝ, template regenerated as `Gen.SensorMesh`; rows `sensor`) -/
+
+namespace MagpyVerif.C19
+open MagpyVerif MagpyVerif.Kern MagpyVerif.DisplayTrig
+
+/-- in the sensor's own frame, for EVERY `dim_ext` (vector or scalar) and both handednesses: (1) all vertices of the glyph's centre
+(the 12 faces of the template's centre cube, its 8 corners) are the ORIGIN — after `place_and_orient_model3d` the sensor's position
+(`sensor_glyph_placed`); (2) vertex 97 is used only by faces of the range coloured x for a right-handed sensor (z for a left-handed
+one), 34 only by the y range, 33 only by the range coloured z (x for a left-handed one); (3) right-handed: these tips are at
+`(d_x, ~0, ~0)`, `(~0, d_y, ~0)`, `(~0, 0, d_z)` — the arrows point along +x, +y, +z, their length is HALF of `dim_ext·2`, i.e.
+`dim_ext`; (4) left-handed: the tip of the x-coloured arrow (33) is at `(−d_x, 0, ~0)`, the y tip stays on +y, the z-coloured one (97)
+on +z: exactly the x arrow is flipped.  `~0` are the template's rounding residues times `dim_ext`, all below `2⁻⁵⁰·dim_ext`. -/
+theorem sensor_glyph_axes (d : V3 ℝ) :
+    (∀ left, ∀ f ∈ Gen.SensorMesh.faces.take 12, (sensorGlyph left d)[f.1]? = some ⟨0, 0, 0⟩ ∧
+      (sensorGlyph left d)[f.2.1]? = some ⟨0, 0, 0⟩ ∧ (sensorGlyph left d)[f.2.2]? = some ⟨0, 0, 0⟩) ∧
+    (∃ e1 e2 e3 e4 e5 : ℝ, |e1| ≤ 1 / 2 ^ 50 ∧ |e2| ≤ 1 / 2 ^ 50 ∧ |e3| ≤ 1 / 2 ^ 50 ∧ |e4| ≤ 1 / 2 ^ 50 ∧ |e5| ≤ 1 / 2 ^ 50 ∧
+      (sensorGlyph false d)[97]? = some ⟨d.x, d.y * e1, d.z * e2⟩ ∧
+      (sensorGlyph false d)[34]? = some ⟨d.x * e3, d.y, d.z * e4⟩ ∧
+      (sensorGlyph false d)[33]? = some ⟨d.x * e5, 0, d.z⟩ ∧
+      (sensorGlyph true d)[33]? = some ⟨-d.x, 0, d.z * e5⟩ ∧
+      (sensorGlyph true d)[34]? = some ⟨d.x * -e4, d.y, d.z * e3⟩ ∧
+      (sensorGlyph true d)[97]? = some ⟨d.x * -e2, d.y * e1, d.z⟩) := by
+  constructor
+  · intro left f hf
+    have hall := centre_faces_use_corners
+    rw [List.all_eq_true] at hall
+    have := hall f hf
+    simp only [Bool.and_eq_true, List.contains_iff_mem] at this
+    exact ⟨glyph_corner_is_origin left d _ this.1.1, glyph_corner_is_origin left d _ this.1.2, glyph_corner_is_origin left d _ this.2⟩
+  · obtain ⟨r1, r2, r3⟩ := glyph_tips_right d
+    obtain ⟨l1, l2, l3⟩ := glyph_tips_left d
+    refine ⟨8052135434725825 / 2 ^ 106, -5249326743147243 / 2 ^ 108, -7751120502399483 / 2 ^ 106, -2545433574297143 / 2 ^ 106,
+      -131941395258825 / 2 ^ 100, ?_, ?_, ?_, ?_, ?_, r1, r2, r3, l1, ?_, ?_⟩
+    · rw [abs_le]; constructor <;> norm_num
+    · rw [abs_le]; constructor <;> norm_num
+    · rw [abs_le]; constructor <;> norm_num
+    · rw [abs_le]; constructor <;> norm_num
+    · rw [abs_le]; constructor <;> norm_num
+    · rw [l2]; congr 2; ring
+    · rw [l3]; congr 2; ring
+
+/-- which arrow a tip vertex belongs to (regenerated index arrays and `indices` of `get_sensor_mesh`) -/
+theorem sensor_glyph_tip_ranges :
+    Gen.SensorMesh.ranges = [(0, 12), (12, 68), (68, 124), (124, 180)] ∧ Gen.SensorMesh.faces.length = 180 ∧
+    (let uses (v : Nat) (f : Nat × Nat × Nat) : Bool := f.1 == v || f.2.1 == v || f.2.2 == v
+     ∀ k < 180, ((Gen.SensorMesh.faces.getD k (0, 0, 0)) |> uses 97) = true → 12 ≤ k ∧ k < 68) ∧
+    (let uses (v : Nat) (f : Nat × Nat × Nat) : Bool := f.1 == v || f.2.1 == v || f.2.2 == v
+     ∀ k < 180, ((Gen.SensorMesh.faces.getD k (0, 0, 0)) |> uses 34) = true → 68 ≤ k ∧ k < 124) ∧
+    (let uses (v : Nat) (f : Nat × Nat × Nat) : Bool := f.1 == v || f.2.1 == v || f.2.2 == v
+     ∀ k < 180, ((Gen.SensorMesh.faces.getD k (0, 0, 0)) |> uses 33) = true → 124 ≤ k ∧ k < 180) :=
+  tips_belong_to_ranges
+
+open MagpyVerif.Display in
+/-- after `place_and_orient_model3d(trace, orientation=R, position=p)` (scale 1, length factor `f`): the glyph's origin is at the
+sensor's position (times the unit factor), and a tip `t` lies at `f·(R t + p)`: tip − origin = `f·R t`, the sensor's own axis
+direction turned by the sensor's orientation -/
+theorem sensor_glyph_placed (R : M3 ℝ) (p t : V3 ℝ) (f : ℝ) :
+    place R p (1 : ℝ) f (⟨0, 0, 0⟩ : V3 ℝ) = V3.smul f p ∧
+    place R p (1 : ℝ) f t - place R p (1 : ℝ) f (⟨0, 0, 0⟩ : V3 ℝ) = V3.smul f (M3.apply R t) := by
+  constructor
+  · apply V3.ext' <;> simp [place, HSMul.hSMul, SMul.smul, V3.smul, M3.apply, V3.dot]
+  · apply V3.ext' <;> simp [place, HSMul.hSMul, SMul.smul, V3.smul, M3.apply, V3.dot] <;> ring
+
+/-- the hull box: a zero extent is replaced by `pixel_dim / 2`, the box is centred on the middle of the pixels' bounding box -/
+example : hullBox [(⟨0, 0, 0⟩ : V3 ℝ), ⟨2, 0, 0⟩] 1 = boxAt ⟨1 / 2 * (2 + 0), 1 / 2 * (0 + 0), 1 / 2 * (0 + 0)⟩ ⟨2 - 0, 1 / 2, 1 / 2⟩ := by
+  simp [hullBox, pixelBounds, Display.minMax, Display.fmin, Display.fmax]
+  norm_num
+
+end MagpyVerif.C19
+
+
+/-! ## User `model3d` traces of a non-generic backend at several path frames (Model/DisplayExtra.lean; rows `extraf`) -/
+
+namespace MagpyVerif.C19
+open MagpyVerif MagpyVerif.Display
+
+/-- the frame loop of `get_generic_traces3D` over ONE user trace with static kwargs: the user's dict after the loop is the dict before
+it, there is one trace per displayed pose, and frame `k` is `process_extra_trace` of the ORIGINAL user trace at pose `k` — a function
+of (user coordinates, pose `k`) only, independent of the frames before it -/
+theorem extra_trace_frames_independent {α : Type} [Add α] [Mul α] [OfNat α 0] [OfNat α 1] [BEq α]
+    (u : ExtraTrace α) (poses : List (M3 α × V3 α)) (kw : List (String × TVal α)) (ts : List (PlaceOut α))
+    (h : extraFrames u poses = .ok (kw, ts)) :
+    kw = u.kwargs ∧ ts.length = poses.length ∧
+    ∀ k (hk : k < poses.length), ∃ t, ts[k]? = some t ∧ processExtraTrace u poses[k].1 poses[k].2 = .ok (u.kwargs, t) :=
+  extraFrames_spec u poses kw ts h
+
+/-- a concrete user trace (one point at the origin) shown at two poses that both shift by `(1, 0, 0)` -/
+def extraDemo : ExtraTrace Int :=
+  { kwargs := [("x", .arr [1] [0]), ("y", .arr [1] [0]), ("z", .arr [1] [0])], args := none, coordsargs := none, scale := 1 }
+def extraDemoPoses : List (M3 Int × V3 Int) := [(1, ⟨1, 0, 0⟩), (1, ⟨1, 0, 0⟩)]
+
+/-- non-vacuity, and what the frames are: both frames put the point at `x = 1`, the user's dict still says `x = 0` -/
+theorem extra_trace_demo :
+    ((extraFrames extraDemo extraDemoPoses).toOption.map fun r => (r.1, r.2.map fun t => t.kwargs.lookup "x")) =
+      some (extraDemo.kwargs, [some (.arr [1] [1]), some (.arr [1] [1])]) := by decide
+
+/-- REGRESSION WITNESS (the variant WITHOUT the dict copy `{**extr.kwargs}`, `copy = false`): `trace3d["kwargs"].update(kwargs)` then
+writes the placed coordinates into the user's dict — the second frame is placed on top of the first (`x = 2` instead of `1`) and the
+user's dict is altered.  The `extraf` rows compare every frame and the user's dict with the real code. -/
+theorem extra_trace_without_copy_accumulates :
+    ((extraFramesWith false extraDemo extraDemoPoses).toOption.map fun r => (r.1.lookup "x", r.2.map fun t => t.kwargs.lookup "x")) =
+      some (some (.arr [1] [2]), [some (.arr [1] [1]), some (.arr [1] [2])]) := by decide
 
 end MagpyVerif.C19
